@@ -11,6 +11,7 @@ package zzverif
 
 import (
 	"bytes"
+	"context"
 	"crypto/sha256"
 	"encoding/base64"
 	"encoding/hex"
@@ -23,6 +24,8 @@ import (
 	"sync"
 	"testing"
 	"time"
+
+	"google.golang.org/grpc/peer"
 )
 
 type replayFile struct {
@@ -140,6 +143,18 @@ func Quiesce() {
 // It models an environment watchdog such as "the manager cancels a sync that stopped progressing".
 func WhenStuck(f func()) { time.AfterFunc(300*time.Millisecond, f) }
 
+// WithRemote returns a context that carries the remote peer's address the way the gRPC server sets it
+// (net.RemoteAddress(ctx) then returns addr). Under the engine the address is a context value read by the
+// modelled net.RemoteAddress.
+func WithRemote(ctx context.Context, addr string) context.Context {
+	return peer.NewContext(ctx, &peer.Peer{Addr: remoteAddr(addr)})
+}
+
+type remoteAddr string
+
+func (a remoteAddr) Network() string { return "tcp" }
+func (a remoteAddr) String() string  { return string(a) }
+
 // AfterWall runs f once d of (real / modelled) wall-clock time has passed: an operator or client deadline.
 func AfterWall(d time.Duration, f func()) { time.AfterFunc(d, f) }
 
@@ -203,6 +218,12 @@ func SecretBytes(name string, n int) []byte {
 			out[n-1] |= 1
 		}
 	}
+	if n >= 32 {
+		// used as a scalar: stay below the group order in either byte order, so that the scalar's encoding IS
+		// these bytes (a value above the order would be reduced and the scan below would look for the wrong bytes)
+		out[0] &= 0x1f
+		out[n-1] &= 0x1f
+	}
 	secrets = append(secrets, out)
 	return out
 }
@@ -212,8 +233,15 @@ func containsSecret(blob []byte) bool {
 		if len(s) < 4 {
 			continue
 		}
-		if bytes.Contains(blob, s) || bytes.Contains(blob, []byte(hex.EncodeToString(s))) || bytes.Contains(blob, []byte(base64.StdEncoding.EncodeToString(s))) {
-			return true
+		// both byte orders: scalar encodings are big-endian for some groups and little-endian for others
+		r := make([]byte, len(s))
+		for i := range s {
+			r[i] = s[len(s)-1-i]
+		}
+		for _, v := range [][]byte{s, r} {
+			if bytes.Contains(blob, v) || bytes.Contains(blob, []byte(hex.EncodeToString(v))) || bytes.Contains(blob, []byte(base64.StdEncoding.EncodeToString(v))) {
+				return true
+			}
 		}
 	}
 	return false
